@@ -25,7 +25,8 @@ EXPLANATION = (
     'returned precoder. C09.e: precoder, receive filter and stream count of a user are selected with the same index and '
     'stem from the same reduction matrix. C09.f: every metric name the setter accepts is dispatched to a variant that can '
     'handle it. Not decided: block diagonality, nulling of external interference, filter inversion as numbers.'
-    ' General rules also applied here (see DESIGN 10.5): validate-before-commit (no `raise` reachable after the object was already changed in a public mutator).')
+    ' General rules also applied here (see DESIGN 10.5): validate-before-commit (no `raise` reachable after the object was already changed in a public mutator).'
+    ' C09.j: the joint receive filter of WhiteningBD times the unwhitened channel is the identity (matrix terms, newH = Wf Heq). C09.i/j decide filter inversion as an identity of terms, not as numbers.')
 
 
 def _term(fn: FuncInfo, e: ast.AST, M: Model) -> T.Term:
@@ -596,6 +597,12 @@ def _check_dispatch(ctx: Ctx) -> None:
 
 
 MUTANTS = [
+    Mutant('whitening-filter-on-the-wrong-side', BD, 'WhiteningBD._calc_receive_filter_with_whitening',
+           [('replace', 'np.dot(BlockDiagonalizer.calc_receive_filter(newH), whitening_filter)', 'np.dot(whitening_filter, BlockDiagonalizer.calc_receive_filter(newH))')],
+           r'C09\.j:WhiteningBD\._calc_receive_filter_with_whitening:inverts-unwhitened'),
+    Mutant('benign-whitening-filter-matmul', BD, 'WhiteningBD._calc_receive_filter_with_whitening',
+           [('replace', 'np.dot(BlockDiagonalizer.calc_receive_filter(newH), whitening_filter)', 'BlockDiagonalizer.calc_receive_filter(newH) @ whitening_filter')],
+           None, benign=True),
     Mutant('projected-filter-forgets-projection-on-the-right', BD, 'EnhancedBD.calc_receive_filter_user_k',
            [('replace', 'W = np.dot(np.linalg.pinv(np.dot(overbar_P, Heq_k_P)), overbar_P)', 'W = np.linalg.pinv(np.dot(overbar_P, Heq_k_P))')],
            r'C09\.i:EnhancedBD\.calc_receive_filter_user_k'),
